@@ -16,6 +16,7 @@ mod plans;
 mod plans2;
 mod proofx;
 mod refmodel;
+mod schedx;
 mod util;
 
 use engine::Engine;
@@ -45,6 +46,7 @@ fn make_engine(prop: &str) -> Option<Box<dyn Engine>> {
     match prop {
         "C01" | "C02" | "C05" | "C06" | "C09" | "C10" | "C11" | "C12" | "C13" | "C16" | "C19" => Some(Box::new(histx::HistX::new())),
         "C03" | "C04" | "C14" | "C17" => Some(Box::new(crashx::CrashX::new())),
+        "C15" | "C20" => Some(Box::new(schedx::SchedX::new())),
         "C07" | "C08" | "C18" => Some(Box::new(proofx::ProofX::new())),
         _ => None,
     }
